@@ -276,9 +276,12 @@ D4(b, pf, rex, e, opc, p) ==
     ELSE IF e.mn = "nop" /\ e.enc = "ZO" /\ rex.b = 1 THEN Bad("unsupported")    \* 41 90 is xchg r8, rax
     ELSE D5(b, pf, rex, e, opc, p, OSize(e, pf.p66, rex.w), IF HasModRM(e) THEN ParseRM(b, p, rex) ELSE NoRM)
 OpMatches(e, map, opc) == e.map = map /\ (IF e.plus THEN opc \div 8 = e.op \div 8 ELSE opc = e.op)
+\* the table indexed by (map, opcode), computed once
+TableIndex == Mk([j \in 1..512 |-> {e \in Table : OpMatches(e, ((j - 1) \div 256) + 1, (j - 1) % 256)}])
+Candidates(map, opc) == TableIndex[(map - 1) * 256 + opc + 1]
 MandPfx(pf) == IF pf.rep # 0 THEN pf.rep ELSE IF pf.p66 THEN 102 ELSE 0
 D3(b, pf, rex, map, opc, p) ==
-    LET c1 == {e \in Table : OpMatches(e, map, opc)}
+    LET c1 == Candidates(map, opc)
         needext == \E e \in c1 : e.ext # None
         ext == IF needext /\ Has(b, p, 1) THEN (b[p] \div 8) % 8 ELSE None
         c2 == {e \in c1 : (e.ext = None \/ e.ext = ext) /\ (e.sse => e.pfx = MandPfx(pf))}
